@@ -202,7 +202,8 @@ func (s *Structure) addDispConstraints(matrix mat.MutableMatrix, vector vec.Muta
 	}
 
 	for _, node := range s.GetAllNodes() {
-		if node.IsExternallyConstrained() {
+		// A node which no bar is linked to has no degrees of freedom in the system.
+		if node.IsExternallyConstrained() && node.HasDegreesOfFreedomNum() {
 			constraint = node.ExternalConstraint
 			dofs = node.DegreesOfFreedomNum()
 
